@@ -356,6 +356,7 @@ type wstate struct {
 	RRefs    [2]map[string]string // refs of the two bare remotes
 	Store    map[string]objInfo   // local LFS store: oid -> validity
 	RStore   [2]map[string]objInfo // lfs/objects of the bare remotes (file:// standalone transfer target)
+	RDirs    [2][]string           // oids at whose object path in the bare remote's lfs/objects a DIRECTORY sits (not an object: absent for the oracle)
 	WT       map[string]string    // work-tree files (top level) -> sha256 of content
 	AllowInc bool
 	Srv      [2]map[string]string // server object sets: oid -> bytes
@@ -405,12 +406,32 @@ func parseStore(s snap, lfsdir string) map[string]objInfo {
 	return m
 }
 
+// parseStoreDirs: oids under whose name a directory (instead of an object file) sits in the store.
+func parseStoreDirs(s snap, lfsdir string) []string {
+	var r []string
+	pre := lfsdir + "/objects/"
+	for _, se := range s {
+		k, e := se.P, se.E
+		if e.Kind != 'd' || !strings.HasPrefix(k, pre) {
+			continue
+		}
+		parts := strings.Split(k[len(pre):], "/")
+		if len(parts) == 3 && len(parts[2]) == 64 && parts[0] == parts[2][:2] && parts[1] == parts[2][2:4] {
+			r = append(r, parts[2])
+		}
+	}
+	sort.Strings(r)
+	return r
+}
+
 func digest(s snap, srv [2]map[string]string) *wstate {
 	st := &wstate{LRefs: parseRefs(s, "local/.git"), Store: parseStore(s, "local/.git/lfs"), WT: map[string]string{}, Srv: srv}
 	st.RRefs[0] = parseRefs(s, "origin.git")
 	st.RRefs[1] = parseRefs(s, "other.git")
 	st.RStore[0] = parseStore(s, "origin.git/lfs")
 	st.RStore[1] = parseStore(s, "other.git/lfs")
+	st.RDirs[0] = parseStoreDirs(s, "origin.git/lfs")
+	st.RDirs[1] = parseStoreDirs(s, "other.git/lfs")
 	if e, ok := s.get("local/.git/HEAD"); ok {
 		st.Head = strings.TrimPrefix(strings.TrimSpace(e.Data), "ref: refs/heads/")
 	}
@@ -439,6 +460,9 @@ func digest(s snap, srv [2]map[string]string) *wstate {
 		}
 		for k, v := range st.RStore[i] {
 			parts = append(parts, fmt.Sprintf("RS%d|%s|%v|%d", i, k, v.Valid, v.Size))
+		}
+		for _, k := range st.RDirs[i] {
+			parts = append(parts, fmt.Sprintf("RD%d|%s", i, k))
 		}
 		for k, v := range st.Srv[i] {
 			parts = append(parts, fmt.Sprintf("S%d|%s|%s", i, k, sha256hex([]byte(v))))
@@ -473,9 +497,12 @@ func (st *wstate) serverLabels(fileMode bool, ri int) []string {
 		for o, i := range st.RStore[ri] {
 			l := labelOf(o)
 			if !i.Valid {
-				l += "(bad)"
+				l += fmt.Sprintf("(bad, %d bytes)", i.Size)
 			}
 			r = append(r, l)
+		}
+		for _, o := range st.RDirs[ri] {
+			r = append(r, labelOf(o)+"(a directory)")
 		}
 	} else {
 		for o, b := range st.Srv[ri] {
